@@ -188,6 +188,40 @@ func buildMirror(race bool) (*mirror, error) {
 			}
 		}
 	}
+	// 1b. the two commands as importable packages: cmd/ck-client -> internal/ckclient, cmd/ck-server ->
+	// internal/ckserver (instrumented like the rest; "package main" renamed, main() exported as Main(),
+	// and ck-server's net.Listen routed through a variable the harness can point at the in-memory network)
+	for _, cm := range [][2]string{{"cmd/ck-client", "ckclient"}, {"cmd/ck-server", "ckserver"}} {
+		src := filepath.Join(root, cm[0])
+		dst := filepath.Join(root, "internal", cm[1])
+		os.MkdirAll(dst, 0o755)
+		vars, err := instr.PackageVars(src)
+		if err != nil {
+			return m, fmt.Errorf("instrument %s: %v", cm[0], err)
+		}
+		ents, _ := os.ReadDir(src)
+		for _, e := range ents {
+			if e.IsDir() || !strings.HasSuffix(e.Name(), ".go") || strings.HasSuffix(e.Name(), "_test.go") {
+				continue
+			}
+			out, err := instr.File(filepath.Join(src, e.Name()), cm[1]+"/"+e.Name(), vars, &m.st)
+			if err != nil {
+				return m, fmt.Errorf("instrument: %v", err)
+			}
+			txt := string(out)
+			txt = strings.Replace(txt, "\npackage main\n", "\npackage "+cm[1]+"\n", 1)
+			if strings.HasPrefix(txt, "package main\n") {
+				txt = "package " + cm[1] + "\n" + txt[len("package main\n"):]
+			}
+			txt = strings.Replace(txt, "\nfunc main() {", "\nfunc Main() {", 1)
+			if cm[1] == "ckserver" {
+				txt = strings.ReplaceAll(txt, "net.Listen(", "VerifListen(")
+			}
+			if err := os.WriteFile(filepath.Join(dst, e.Name()), []byte(txt), 0o644); err != nil {
+				return m, err
+			}
+		}
+	}
 	// 2. vendored, instrumented copy of juju/ratelimit (token buckets on virtual time)
 	rl, err := findModule("github.com/juju/ratelimit", root)
 	if err != nil {
@@ -311,7 +345,7 @@ func (m *mirror) runJob(j Job, seed int64, replay string) (*Report, string, erro
 	// the cooperative scheduler runs one goroutine at a time: a single P avoids futex hand-offs
 	// (measured 1.45x faster); free-running scenarios get real parallelism
 	procs := "GOMAXPROCS=1"
-	for _, pfx := range []string{"hs.agree", "auth.", "udp.route", "wire.udp", "ws.segment", "tls.segment", "tls.large", "codec.", "session.garbage", "dgram.sizes", "cfg.", "adminapi.", "wire.names", "panel.history", "panel.valve", "replay.crosstransport", "sbuf.orders", "sbuf.bfs"} {
+	for _, pfx := range []string{"hs.agree", "auth.", "udp.route", "wire.udp", "ws.segment", "tls.segment", "tls.large", "codec.", "session.garbage", "dgram.sizes", "cfg.", "adminapi.", "wire.names", "climain.", "redir.tcp", "panel.history", "panel.valve", "replay.crosstransport", "sbuf.orders", "sbuf.bfs"} {
 		if strings.HasPrefix(j.Scenario, pfx) && j.Scenario != "panel.valve.sched" {
 			procs = "GOMAXPROCS=4"
 		}
